@@ -4,7 +4,7 @@ import json, glob, os, re
 ROOT = os.path.dirname(os.path.dirname(os.path.abspath(__file__)))
 rows = []
 n = ns = 0
-for d in sorted(glob.glob(os.path.join(ROOT, 'seeded', '*'))):
+for d in sorted(glob.glob(os.path.join(ROOT, 'seeded', '*-m*'))):
     m = json.load(open(os.path.join(d, 'meta.json')))
     c = m.get('confirmed_here', {})
     summ = (m.get('summary') or '').replace('|', '/').replace('\n', ' ')
